@@ -565,6 +565,66 @@ func c09Scenario(c c09Case, idx int) vx.Scenario {
 		}}
 }
 
+// c09Conc: two or three requests of different users in flight at once (one of them may be a shim open
+// request): each backend call / websocket handshake must carry the identity asserted for its own request.
+func c09Conc(flags []string, users []string, shimOpen bool, pb int) vx.Scenario {
+	name := fmt.Sprintf("c09/concurrent %v users=%q shimopen=%v", flags, users, shimOpen)
+	return vx.Scenario{Name: name, PB: pb, Delay: true, MaxSteps: 20000, MaxTime: time.Minute,
+		Setup: func(s *vs.Sched) func(*vs.Result) vx.Exec {
+			w := newWorld(s)
+			ids := []string{"a", "b", "c"}[:len(users)]
+			w.lists = []listReply{{ids: ids}}
+			for i, id := range ids {
+				req := fmt.Sprintf("GET /p/%s HTTP/1.1\r\nHost: client.example\r\nX-Tok: %s\r\nX-Inverting-Proxy-User-ID: forged-%s@example.com\r\n\r\n", id, id, id)
+				if shimOpen && i == 0 {
+					body := "ws://client.example/socket-" + id
+					req = fmt.Sprintf("POST /websocket-shim/open HTTP/1.1\r\nHost: client.example\r\nX-Tok: %s\r\nContent-Length: %d\r\n\r\n%s", id, len(body), body)
+				}
+				w.fetch[id] = &fetchPlan{req: req, user: users[i], userSet: true}
+			}
+			w.startAgent(flags...)
+			return func(r *vs.Result) vx.Exec {
+				var x vx.Exec
+				baseViolations(r, &x)
+				var obs []string
+				seen := 0
+				check := func(what, id string, h http.Header) {
+					want := ""
+					for i, k := range ids {
+						if k == id {
+							want = users[i]
+						}
+					}
+					var got []string
+					for k, v := range h {
+						if http.CanonicalHeaderKey(k) == "X-Inverting-Proxy-User-Id" {
+							got = append(got, v...)
+						}
+					}
+					sort.Strings(got)
+					obs = append(obs, fmt.Sprintf("%s:%q", id, got))
+					if len(got) != 1 || got[0] != want {
+						x.Violations = append(x.Violations, fmt.Sprintf("IDENTITY: the %s of request %s carries X-Inverting-Proxy-User-ID %q, the proxy asserted %q for it (other requests in flight: %q)", what, id, got, want, users))
+					}
+				}
+				for _, c := range w.calls {
+					seen++
+					check("backend request", c.tok, c.header)
+				}
+				for _, d := range w.ws.Dials {
+					seen++
+					check("websocket handshake", strings.TrimPrefix(d.URL[strings.LastIndex(d.URL, "/")+1:], "socket-"), d.Header)
+				}
+				if seen != len(ids) && len(x.Violations) == 0 && !r.Exited {
+					x.Violations = append(x.Violations, fmt.Sprintf("NOCALL: %d requests listed, %d reached the backend", len(ids), seen))
+				}
+				sort.Strings(obs)
+				x.Obs = strings.Join(obs, " ")
+				return x
+			}
+		}}
+}
+
 func c09Scenarios(th bool) []vx.Scenario {
 	idLines := [][]string{
 		nil,
@@ -578,6 +638,14 @@ func c09Scenarios(th bool) []vx.Scenario {
 	authLines := [][]string{nil, {"Authorization: Bearer x"}, {"authorization: Bearer x"}, {"Authorization: Basic a", "Authorization: Bearer b"}, {"Authorization:", "Authorization: Bearer late"}}
 	asserted := []string{"u@example.com", "", "a,b@example.com"}
 	var out []vx.Scenario
+	cpb := 2
+	if th {
+		cpb = 3
+	}
+	out = append(out, c09Conc([]string{"--forward-user-id"}, []string{"alice@example.com", "bob@example.com"}, false, cpb))
+	out = append(out, c09Conc([]string{"--forward-user-id", "--strip-credentials"}, []string{"alice@example.com", ""}, false, cpb))
+	out = append(out, c09Conc([]string{"--forward-user-id", "--shim-websockets", "--shim-path=websocket-shim"}, []string{"alice@example.com", "bob@example.com"}, true, cpb))
+	out = append(out, c09Conc([]string{"--forward-user-id", "--session-cookie-name=sess"}, []string{"alice@example.com", "bob@example.com", "carol@example.com"}, false, cpb-1))
 	idx := 0
 	for _, fu := range []bool{false, true} {
 		for _, st := range []bool{false, true} {
